@@ -192,6 +192,10 @@ def classify(pid, results, baseline, known):
                 helper_loop = any(a.get("kind") == "inline-loop" for a in (f.get("abstractions") or []))
                 anchor_drift = any(("anchor not found" in d or "names a variable the code no longer has" in d) for d in (f.get("drift") or []))
                 independent = o["kind"] in ("index", "slice", "div", "nil", "panic", "exit", "typeassert", "makeslice", "lock", "monitor", "frame", "shift", "conv")
+                # a cover clause that is uncovered although assertions / assumptions were dropped (fewer assumptions = more reachable
+                # states) is uncovered for good; only a vanished ghost update (setat) could change what it speaks about
+                if o["kind"] == "cover" and not any("anchor not found: setat" in d for d in (f.get("drift") or [])):
+                    independent = True
                 # ... unless the anchor that vanished carried an explicit assumption (`assume at`): safety proofs rest on those too
                 if any("anchor not found: assume" in d for d in (f.get("drift") or [])):
                     independent = False
@@ -448,6 +452,13 @@ def main():
                         sigs[fr["pkg"] + "::" + fr["name"]] = fr["loop_sigs"]
             with open(LOOPSIGS, "w") as f:
                 json.dump(sigs, f, indent=1, sort_keys=True)
+            forms = load_json(LOOPSIGS + ".forms", {})
+            for res in results:
+                for fr in res["functions"]:
+                    if fr.get("loop_forms") and not fr.get("loops_remapped") and not fr.get("error"):
+                        forms[fr["pkg"] + "::" + fr["name"]] = fr["loop_forms"]
+            with open(LOOPSIGS + ".forms", "w") as f:
+                json.dump(forms, f, indent=1, sort_keys=True)
             kf = load_json(KNOWNFUNCS, {})
             for res in results:
                 for pk, l in (res.get("root_funcs") or {}).items():
